@@ -1,0 +1,172 @@
+// Copyright 2026 Juan Pablo Tosso and the OWASP Coraza contributors
+// SPDX-License-Identifier: Apache-2.0
+
+//go:build verif
+
+// Package verifhook provides observation and fault-injection hooks used by
+// external runtime-verification tooling. This file is the active
+// implementation, compiled only with the "verif" build tag.
+package verifhook
+
+import (
+	"fmt"
+	"runtime"
+	"sync"
+	"sync/atomic"
+	"time"
+)
+
+// Enabled reports whether the hooks are compiled in.
+const Enabled = true
+
+// EventKind identifies a hook event.
+type EventKind int
+
+const (
+	PhaseBegin EventKind = iota
+	PhaseEnd
+	RuleEval
+	TCacheHit
+	TCachePrefixHit
+	TCacheMiss
+	PoolGet
+	PoolPut
+	MemoHit
+	MemoMiss
+	MemoRelease
+)
+
+// Sink receives events. subject identifies the object the event is about
+// (a transaction, a pool, a cache key); a and b are kind-specific integers.
+type Sink func(kind EventKind, subject any, a, b int)
+
+var sink atomic.Pointer[Sink]
+
+// SetSink installs (or, with nil, removes) the event sink. The sink is called
+// synchronously from the goroutine that emits the event and must be
+// goroutine-safe if the instrumented code is used concurrently.
+func SetSink(s Sink) {
+	if s == nil {
+		sink.Store(nil)
+		return
+	}
+	sink.Store(&s)
+}
+
+// Event reports an event to the installed sink.
+func Event(kind EventKind, subject any, a, b int) {
+	if s := sink.Load(); s != nil {
+		(*s)(kind, subject, a, b)
+	}
+}
+
+// ---------------------------------------------------------------- failpoints
+
+// InjectedError is the error type returned by armed failpoints.
+type InjectedError struct{ Site string }
+
+func (e *InjectedError) Error() string { return fmt.Sprintf("verifhook: injected fault at %s", e.Site) }
+
+var (
+	faultMu     sync.Mutex
+	faultActive atomic.Bool
+	faultCounts map[string]int // hits per site since the last ResetFaults
+	faultArmed  map[string]int // site -> occurrence (1-based) that fails; 0 = every hit
+	faultFired  []string
+)
+
+// ResetFaults clears counters and disarms everything. With record=true the
+// hit counters keep counting (used to discover which sites a scenario reaches).
+func ResetFaults(record bool) {
+	faultMu.Lock()
+	defer faultMu.Unlock()
+	faultCounts = map[string]int{}
+	faultArmed = map[string]int{}
+	faultFired = nil
+	faultActive.Store(record)
+}
+
+// ArmFault makes the occurrence-th hit (1-based; 0 means every hit) of site fail.
+func ArmFault(site string, occurrence int) {
+	faultMu.Lock()
+	defer faultMu.Unlock()
+	if faultCounts == nil {
+		faultCounts = map[string]int{}
+		faultArmed = map[string]int{}
+	}
+	faultArmed[site] = occurrence
+	faultActive.Store(true)
+}
+
+// FaultCounts returns a copy of the per-site hit counters.
+func FaultCounts() map[string]int {
+	faultMu.Lock()
+	defer faultMu.Unlock()
+	out := make(map[string]int, len(faultCounts))
+	for k, v := range faultCounts {
+		out[k] = v
+	}
+	return out
+}
+
+// FaultsFired lists the "site#occurrence" entries that actually fired.
+func FaultsFired() []string {
+	faultMu.Lock()
+	defer faultMu.Unlock()
+	return append([]string(nil), faultFired...)
+}
+
+// Fault returns an injected error if the named failpoint is armed for this hit.
+func Fault(site string) error {
+	if !faultActive.Load() {
+		return nil
+	}
+	faultMu.Lock()
+	defer faultMu.Unlock()
+	faultCounts[site]++
+	occ, ok := faultArmed[site]
+	if !ok {
+		return nil
+	}
+	if occ == 0 || occ == faultCounts[site] {
+		faultFired = append(faultFired, fmt.Sprintf("%s#%d", site, faultCounts[site]))
+		return &InjectedError{Site: site}
+	}
+	return nil
+}
+
+// FaultOr returns the injected error for the named failpoint if armed, or err.
+func FaultOr(site string, err error) error {
+	if ierr := Fault(site); ierr != nil {
+		return ierr
+	}
+	return err
+}
+
+// -------------------------------------------------------------------- yields
+
+// YieldFunc decides what to do at a yield point: it may call runtime.Gosched,
+// sleep, or record the passage.
+type YieldFunc func(site string)
+
+var yielder atomic.Pointer[YieldFunc]
+
+// SetYield installs (or removes) the yield function.
+func SetYield(f YieldFunc) {
+	if f == nil {
+		yielder.Store(nil)
+		return
+	}
+	yielder.Store(&f)
+}
+
+// Yield is a scheduling perturbation point placed next to shared-state accesses.
+func Yield(site string) {
+	if f := yielder.Load(); f != nil {
+		(*f)(site)
+	}
+}
+
+// Gosched and Sleep are helpers for YieldFunc implementations.
+func Gosched()              { runtime.Gosched() }
+func Sleep(d time.Duration) { time.Sleep(d) }
